@@ -1,44 +1,54 @@
-(* Sub.v -- the subtype relation of spec/Candid.md as ONE boolean rule function [stepb], the relation as
-   the greatest fixed point of that function, and its decision procedure on the finite universe of
-   sub-term pairs.  Likewise structural type equality ([eq_stepb], as types/subtype.rs::equal). *)
+(* Sub.v -- the subtype relation of spec/Candid.md as ONE rule function [rule]: given a pair of types it
+   answers "holds outright", "fails outright" or "holds provided these premise pairs hold" (one rule of the
+   spec applied to the traced forms).  The relation is the greatest fixed point of that function; [sub_dec]
+   decides it on the finite universe of sub-term pairs.  Likewise structural type equality
+   ([eq_rule], as types/subtype.rs::equal). *)
 From CandidV Require Export model.Ty model.Gfp.
 Open Scope N_scope.
 
-(* "(a,b) follows by one rule of the spec from premises in S", on traced forms.
-   The two "not" premises of the opt rules collapse to: anything <: opt anything (spec note; OptReport::Warning/Silence). *)
-Definition stepb (E : env) (S : pair -> bool) (p : pair) : bool :=
+Inductive verdict := VTrue | VFalse | VPrem (qs : list pair).
+
+(* The two "not" premises of the opt rules collapse to: anything <: opt anything (spec note; OptReport::Warning/Silence). *)
+Definition rule (E : env) (p : pair) : verdict :=
   let (a, b) := p in
-  ty_eqb a b ||
+  if ty_eqb a b then VTrue else
   match trace E a, trace E b with
   | Some a', Some b' =>
-      ty_eqb a' b' ||
+      if ty_eqb a' b' then VTrue else
       match a', b' with
-      | _, TPrim PReserved => true
-      | TPrim PEmpty, _ => true
-      | TPrim PNat, TPrim PInt => true
-      | TServ _, TPrim PPrincipal => true
-      | _, TOpt _ => true
-      | TVec x, TVec y => S (x, y)
+      | _, TPrim PReserved => VTrue
+      | TPrim PEmpty, _ => VTrue
+      | TPrim PNat, TPrim PInt => VTrue
+      | TServ _, TPrim PPrincipal => VTrue
+      | _, TOpt _ => VTrue
+      | TVec x, TVec y => VPrem [(x, y)]
       | TRec f1, TRec f2 =>
-          forallb (fun f => match find_field (fst f) f1 with
-                            | Some t1 => S (t1, snd f)
-                            | None => optlike E (snd f) end) f2
+          (* every expected field is present (premise) or absent and of an optional type *)
+          if forallb (fun f => match find_field (fst f) f1 with Some _ => true | None => optlike E (snd f) end) f2
+          then VPrem (flat_map (fun f => match find_field (fst f) f1 with Some t1 => [(t1, snd f)] | None => [] end) f2)
+          else VFalse
       | TVariant f1, TVariant f2 =>
-          forallb (fun f => match find_field (fst f) f2 with
-                            | Some t2 => S (snd f, t2)
-                            | None => false end) f1
+          if forallb (fun f => match find_field (fst f) f2 with Some _ => true | None => false end) f1
+          then VPrem (flat_map (fun f => match find_field (fst f) f2 with Some t2 => [(snd f, t2)] | None => [] end) f1)
+          else VFalse
       | TServ m1, TServ m2 =>
-          forallb (fun m => match find_meth (fst m) m1 with
-                            | Some t1 => S (t1, snd m)
-                            | None => false end) m2
+          if forallb (fun m => match find_meth (fst m) m1 with Some _ => true | None => false end) m2
+          then VPrem (flat_map (fun m => match find_meth (fst m) m1 with Some t1 => [(t1, snd m)] | None => [] end) m2)
+          else VFalse
       | TFunc a1 r1 m1, TFunc a2 r2 m2 =>
-          list_eqb N.eqb m1 m2 && S (tuple a2, tuple a1) && S (tuple r1, tuple r2)
-      | TClass _ t, _ => S (t, b')
-      | _, TClass _ t => S (a', t)
-      | _, _ => false
+          if list_eqb N.eqb m1 m2 then VPrem [(tuple a2, tuple a1); (tuple r1, tuple r2)] else VFalse
+      | TClass _ t, _ => VPrem [(t, b')]
+      | _, TClass _ t => VPrem [(a', t)]
+      | _, _ => VFalse
       end
-  | _, _ => false
+  | _, _ => VFalse
   end.
+
+Definition apply_rule (v : verdict) (S : pair -> bool) : bool :=
+  match v with VTrue => true | VFalse => false | VPrem qs => forallb S qs end.
+
+(* "(a,b) follows by one rule application from premises in S" *)
+Definition stepb (E : env) (S : pair -> bool) (p : pair) : bool := apply_rule (rule E p) S.
 
 Definition universe (E : env) (a b : ty) : list pair :=
   let ns := nodes E [a; b] in list_prod ns ns.
@@ -46,42 +56,41 @@ Definition universe (E : env) (a b : ty) : list pair :=
 Definition sub_dec (E : env) (a b : ty) : bool :=
   mem pair pair_eqb (gfp pair pair_eqb (stepb E) (universe E a b)) (a, b).
 
-(* the relation itself: the greatest relation closed under [stepb] *)
+(* the relation itself: the greatest relation closed under the rule function *)
 Definition Sub (E : env) (a b : ty) : Prop :=
   exists R : pair -> Prop, R (a, b) /\
     forall p, R p -> exists S : pair -> bool, (forall q, S q = true -> R q) /\ stepb E S p = true.
 
-(* structural equality up to unfolding of names: one rule function as well *)
-Fixpoint zipb {A B} (f : A -> B -> bool) (l1 : list A) (l2 : list B) : bool :=
+(* ---------- structural equality up to unfolding of names ---------- *)
+Fixpoint zip_fields {K} (keq : K -> K -> bool) (l1 l2 : list (K * ty)) : option (list pair) :=
   match l1, l2 with
-  | [], [] => true
-  | a :: r1, b :: r2 => f a b && zipb f r1 r2
-  | _, _ => false
+  | [], [] => Some []
+  | (i, s) :: r1, (j, t) :: r2 =>
+      if keq i j then match zip_fields keq r1 r2 with Some qs => Some ((s, t) :: qs) | None => None end else None
+  | _, _ => None
   end.
-Definition eq_stepb (E : env) (S : pair -> bool) (p : pair) : bool :=
+Definition eq_rule (E : env) (p : pair) : verdict :=
   let (a, b) := p in
-  ty_eqb a b ||
+  if ty_eqb a b then VTrue else
   match trace E a, trace E b with
   | Some a', Some b' =>
-      ty_eqb a' b' ||
+      if ty_eqb a' b' then VTrue else
       match a', b' with
-      | TOpt x, TOpt y | TVec x, TVec y => S (x, y)
+      | TOpt x, TOpt y | TVec x, TVec y => VPrem [(x, y)]
       | TRec f1, TRec f2 | TVariant f1, TVariant f2 =>
-          zipb (fun f g => (fst f =? fst g) && S (snd f, snd g)) f1 f2
+          match zip_fields N.eqb f1 f2 with Some qs => VPrem qs | None => VFalse end
       | TServ m1, TServ m2 =>
-          zipb (fun f g => name_eqb (fst f) (fst g) && S (snd f, snd g)) m1 m2
+          match zip_fields name_eqb m1 m2 with Some qs => VPrem qs | None => VFalse end
       | TFunc a1 r1 m1, TFunc a2 r2 m2 =>
-          list_eqb N.eqb m1 m2 && S (tuple a1, tuple a2) && S (tuple r1, tuple r2)
-      | TClass i1 t1, TClass i2 t2 => S (tuple i1, tuple i2) && S (t1, t2)
-      | _, _ => false
+          if list_eqb N.eqb m1 m2 then VPrem [(tuple a1, tuple a2); (tuple r1, tuple r2)] else VFalse
+      | TClass i1 t1, TClass i2 t2 => VPrem [(tuple i1, tuple i2); (t1, t2)]
+      | _, _ => VFalse
       end
-  | _, _ => false
+  | _, _ => VFalse
   end.
-Definition eq_universe (E : env) (a b : ty) : list pair :=
-  let ns := nodes E [a; b] ++ flat_map (fun t => match t with TClass i _ => [tuple i] | _ => [] end) (nodes E [a; b]) in
-  list_prod ns ns.
+Definition eq_stepb (E : env) (S : pair -> bool) (p : pair) : bool := apply_rule (eq_rule E p) S.
 Definition eq_dec (E : env) (a b : ty) : bool :=
-  mem pair pair_eqb (gfp pair pair_eqb (eq_stepb E) (eq_universe E a b)) (a, b).
+  mem pair pair_eqb (gfp pair pair_eqb (eq_stepb E) (universe E a b)) (a, b).
 Definition TyEq (E : env) (a b : ty) : Prop :=
   exists R : pair -> Prop, R (a, b) /\
     forall p, R p -> exists S : pair -> bool, (forall q, S q = true -> R q) /\ eq_stepb E S p = true.
